@@ -153,6 +153,16 @@ def check(ctx):
         ctx.oblige("R-C04.2", f"{meth} records {flag} in the innermost scope", ok)
         if not ok:
             ctx.violation("R-C04.2", f"register:{meth}", f"{meth} must store {flag} for the name in the innermost scope (self._scope_stack[-1][name] = {flag})", file=px.rel, function=f"CParser.{meth}")
+        # ... and every look at the scope stack in a registration helper is a look at the innermost scope: the "previously declared in THIS scope"
+        # test must read the table the name is then written to (a test against another scope rejects legal inner re-declarations / misses real conflicts)
+        for n in ast.walk(fn):
+            if isinstance(n, ast.Subscript) and S.unparse_resolved(n.value, al) == "self._scope_stack":
+                idx = n.slice
+                innermost = isinstance(idx, ast.UnaryOp) and isinstance(idx.op, ast.USub) and isinstance(idx.operand, ast.Constant) and idx.operand.value == 1
+                ctx.oblige("R-C04.2", f"{meth}: scope stack read at index {S.unparse(idx)}", innermost)
+                if not innermost:
+                    ctx.violation("R-C04.2", f"register-scope:{meth}:{S.unparse(idx)}", f"{meth} consults `{S.unparse(n)}`: the conflict test and the registration must both use the innermost scope (self._scope_stack[-1]); with another "
+                                  "index an inner typedef / identifier is checked against a scope it does not belong to", file=px.rel, function=f"CParser.{meth}", line=n.lineno)
     # ---- R-C04.3 ----------------------------------------------------------------
     # names are registered when the declarator is complete: the builders that register them consume no token themselves (a body parsed inside
     # a builder would be parsed before / after the registration it is meant to follow, in the wrong scope)
